@@ -268,7 +268,7 @@ fn gen_attrs(ch: &mut Ch, thorough: bool) -> Option<Case> {
 
 /// Debug / Default attribute flavours
 fn gen_misc(ch: &mut Ch, _thorough: bool) -> Option<Case> {
-    let cases: [(&[&str], &str); 27] = [
+    let cases: [(&[&str], &str); 31] = [
         (&["Debug"], "pub struct X<T>(#[debug(ignore)] pub T, pub Option<T>);"),
         (&["Debug"], "pub struct X<T> { #[debug(transparent)] pub a: Vec<T>, pub b: u8 }"),
         (&["Debug"], "pub enum X<'a, T> { A(#[debug(ignore)] &'a T), B { #[debug(transparent)] x: T }, C }"),
@@ -297,6 +297,11 @@ fn gen_misc(ch: &mut Ch, _thorough: bool) -> Option<Case> {
         (&["Ord", "PartialOrd", "Eq", "PartialEq", "Hash"], "#[ord(bound(T: ::core::cmp::Ord))] #[hash(bound(T: ::core::hash::Hash))] pub struct X<T> { pub q0: T, pub c1: u8 }"),
         (&["Eq", "PartialEq", "Hash"], "pub enum X<T, U> { #[eq(bound(T: ::core::cmp::Eq))] #[hash(bound(T: ::core::hash::Hash))] A(T), B(U) }"),
         (&["Ord", "PartialOrd", "Eq", "PartialEq"], "#[ord(bound(T: ::core::cmp::Ord))] #[partial_ord(bound(T: ::core::cmp::PartialOrd))] #[eq(bound(T: ::core::cmp::Eq))] #[partial_eq(bound(T: ::core::cmp::PartialEq))] pub struct X<T>(pub T);"),
+        // field names with a leading underscore (the usual spelling of marker / unused fields)
+        (&["Clone", "Debug", "Default", "Ord", "PartialOrd", "Eq", "PartialEq", "Hash"], "pub enum X<T> { #[default] A, B { _marker: ::core::marker::PhantomData<T>, _x: u8 } }"),
+        (&["Clone", "Debug", "Default", "Ord", "PartialOrd", "Eq", "PartialEq", "Hash"], "pub struct X<T> { pub _marker: ::core::marker::PhantomData<T>, #[ord(by = |a, b| ::core::cmp::Ord::cmp(a, b))] #[hash(by = |a: &u8, s| ::core::hash::Hash::hash(a, s))] pub _y: u8 }"),
+        (&["Add", "SubAssign", "Neg", "Clone"], "pub struct X { pub _a: i8, pub __b: i8 }"),
+        (&["Ord", "PartialOrd", "Eq", "PartialEq", "Hash", "Debug"], "pub enum X { A { #[ord(key = $ + 1)] _k: u8, #[debug(ignore)] __state: u8 }, B(u8) }"),
     ];
     let (list, item) = *ch.of(&cases);
     let entry = *ch.of(&Entry::BOTH);
